@@ -61,15 +61,20 @@ struct Cfg {
     script: Vec<SinkStep>,
     fallback: usize,
     fail_at: Option<(usize, ErrorKind)>,
+    /// only call `fail_at` fails, the destination then recovers (oracle scenarios only; the
+    /// modelled sessions use permanent failures)
+    fail_once: bool,
     label: String,
 }
 
 impl Cfg {
     fn plain() -> Self {
-        Cfg { script: vec![], fallback: usize::MAX, fail_at: None, label: "plain".into() }
+        Cfg { script: vec![], fallback: usize::MAX, fail_at: None, fail_once: false, label: "plain".into() }
     }
     fn sink(&self) -> SharedSink {
-        SharedSink::new(ScriptSink::new(self.script.clone(), self.fallback, self.fail_at))
+        let mut sink = ScriptSink::new(self.script.clone(), self.fallback, self.fail_at);
+        sink.fail_once = self.fail_once;
+        SharedSink::new(sink)
     }
     fn fmt_script(&self) -> String {
         if self.script.is_empty() {
@@ -89,10 +94,10 @@ impl Cfg {
 /// short-write / interruption patterns; `total` = bytes of the healthy output, `calls` = its calls
 fn pattern(rng: &mut Rng, kind: usize, total: usize, calls: usize) -> Cfg {
     match kind % 8 {
-        0 => Cfg { script: vec![], fallback: 1, fail_at: None, label: "one-byte".into() },
-        1 => Cfg { script: vec![], fallback: 3, fail_at: None, label: "three-byte".into() },
-        2 => Cfg { script: vec![], fallback: 7, fail_at: None, label: "seven-byte".into() },
-        3 => Cfg { script: vec![], fallback: 4096, fail_at: None, label: "4k".into() },
+        0 => Cfg { script: vec![], fallback: 1, fail_at: None, fail_once: false, label: "one-byte".into() },
+        1 => Cfg { script: vec![], fallback: 3, fail_at: None, fail_once: false, label: "three-byte".into() },
+        2 => Cfg { script: vec![], fallback: 7, fail_at: None, fail_once: false, label: "seven-byte".into() },
+        3 => Cfg { script: vec![], fallback: 4096, fail_at: None, fail_once: false, label: "4k".into() },
         4 => {
             // random partial acceptances with a finite number of interruptions
             let mut s = vec![];
@@ -108,7 +113,7 @@ fn pattern(rng: &mut Rng, kind: usize, total: usize, calls: usize) -> Cfg {
                     budget = budget.saturating_sub(n);
                 }
             }
-            Cfg { script: s, fallback: usize::MAX, fail_at: None, label: "random-short+interrupted".into() }
+            Cfg { script: s, fallback: usize::MAX, fail_at: None, fail_once: false, label: "random-short+interrupted".into() }
         }
         5 => {
             // an interruption before every one of the first calls
@@ -118,7 +123,7 @@ fn pattern(rng: &mut Rng, kind: usize, total: usize, calls: usize) -> Cfg {
                 s.push(SinkStep::Interrupted);
                 s.push(SinkStep::Accept(1 + rng.below(5000) as usize));
             }
-            Cfg { script: s, fallback: usize::MAX, fail_at: None, label: "interrupted-before-calls".into() }
+            Cfg { script: s, fallback: usize::MAX, fail_at: None, fail_once: false, label: "interrupted-before-calls".into() }
         }
         6 => {
             // bursts of interruptions
@@ -129,12 +134,12 @@ fn pattern(rng: &mut Rng, kind: usize, total: usize, calls: usize) -> Cfg {
                 }
                 s.push(SinkStep::Accept(1 + rng.below(64) as usize));
             }
-            Cfg { script: s, fallback: 1 + rng.below(100) as usize, fail_at: None, label: "interrupt-bursts".into() }
+            Cfg { script: s, fallback: 1 + rng.below(100) as usize, fail_at: None, fail_once: false, label: "interrupt-bursts".into() }
         }
         _ => {
             // all but the last byte of what is offered, then the rest (Accept(n) is clamped to the buffer)
             let s = (0..(calls * 2 + 4).min(400)).map(|i| if i % 2 == 0 { SinkStep::Accept(usize::MAX / 2) } else { SinkStep::Accept(1) }).collect();
-            Cfg { script: s, fallback: 2, fail_at: None, label: "whole-then-one".into() }
+            Cfg { script: s, fallback: 2, fail_at: None, fail_once: false, label: "whole-then-one".into() }
         }
     }
 }
@@ -1115,7 +1120,7 @@ struct Healthy {
 fn eval_cfg(ctx: &mut Ctx, sc: &Scenario, cfg: &Cfg, healthy: Option<&Healthy>, case: &str) -> Option<(RunOut, SharedSink)> {
     let sink = cfg.sink();
     let class = |c: &str| format!("{}{}", sc.class_prefix, c);
-    let what = format!("{} [{}{}]", sc.name, cfg.label, cfg.fail_at.map(|(k, kind)| format!(", fails from call {k} with {kind:?}")).unwrap_or_default());
+    let what = format!("{} [{}{}]", sc.name, cfg.label, cfg.fail_at.map(|(k, kind)| format!(", {} call {k} with {kind:?}", if cfg.fail_once { "fails only at" } else { "fails from" })).unwrap_or_default());
     ctx.eval(Some(fnv(format!("{case}/{what}").as_bytes())));
     let out = match exec(sc, &sink) {
         Ok(o) => o,
@@ -1274,6 +1279,10 @@ fn check_scenario(ctx: &mut Ctx, name: &str, sub: u64) {
         let kind = KINDS[(k + sub as usize) % KINDS.len()].0;
         let cfg = Cfg { fail_at: Some((k, kind)), label: "plain".into(), ..Cfg::plain() };
         eval_cfg(ctx, &sc, &cfg, Some(&healthy), &case);
+        // … and the same call failing ONCE, the destination then recovering
+        let once = Cfg { fail_at: Some((k, kind)), fail_once: true, label: "fail-once".into(), ..Cfg::plain() };
+        eval_cfg(ctx, &sc, &once, Some(&healthy), &case);
+        ctx.bump("fail_once_runs");
         ctx.bump(&format!("kind_{kind:?}"));
     }
     // every kind at a few indices
@@ -1618,7 +1627,7 @@ fn corpus(ctx: &mut Ctx) {
                 ("interrupted-first", vec![SinkStep::Interrupted, SinkStep::Interrupted, SinkStep::Accept(1), SinkStep::Interrupted], usize::MAX),
                 ("accept-0-is-1", vec![SinkStep::Accept(0), SinkStep::Accept(2)], 5),
             ] {
-                let cfg = Cfg { script, fallback, fail_at: None, label: label.into() };
+                let cfg = Cfg { script, fallback, fail_at: None, fail_once: false, label: label.into() };
                 let s = sess_case(ctx, h, end, &cfg, &case, true);
                 for k in [0, 1, s.calls / 2, s.calls.saturating_sub(1), s.calls] {
                     sess_case(ctx, h, end, &Cfg { fail_at: Some((k, ErrorKind::BrokenPipe)), ..cfg.clone() }, &case, true);
